@@ -14,6 +14,7 @@ pub mod c11;
 pub mod c12;
 pub mod c13;
 pub mod c14;
+pub mod c15;
 pub mod c16;
 pub mod c17;
 pub mod c18;
@@ -46,6 +47,7 @@ pub fn lookup(id: &str) -> Option<Prop> {
         "C12" => c12::PROP,
         "C13" => c13::PROP,
         "C14" => c14::PROP,
+        "C15" => c15::PROP,
         "C16" => c16::PROP,
         "C17" => c17::PROP,
         "C18" => c18::PROP,
